@@ -9,7 +9,8 @@ EXTENDS Toolchain, Json
 CONSTANTS Export, MaxEdits
 VARIABLE edits
 
-MCFiles   == <<"932100", "932110", "932120-chain1">>
+\* in directory walk order: "932100-chain1.ra" sorts before "932100.ra"
+MCFiles   == <<"932100-chain1", "932100", "932110">>
 MCSources == {"store", "loadonly", "define", "refonly", "flagsprefix", "plain", "unclosed", "incl",
               \* one per fault class of C16, at top level, in a block and in an include
               "missinginc", "malformed", "unknownproc", "badcmdline", "strayend", "badflag", "oddpairs", "inblock", "ininclude"}
@@ -17,7 +18,7 @@ MCCompiles(s) == s \in {"store", "define", "refonly", "flagsprefix", "plain", "i
 MCFormats(s)  == s \notin {"strayend", "badflag", "oddpairs"}
 MCFmtAborts(s) == s \in {"badflag", "oddpairs"}
 
-Assign(a, b, c) == [f \in FileSet |-> IF f = "932100" THEN a ELSE IF f = "932110" THEN b ELSE c]
+Assign(a, b, c) == [f \in FileSet |-> IF f = "932100-chain1" THEN a ELSE IF f = "932100" THEN b ELSE c]
 InitSrcs == { Assign("store", "loadonly", "plain"),      \* a stored name must not leak into the next file
               Assign("define", "refonly", "none"),       \* nor a definition
               Assign("flagsprefix", "plain", "incl"),    \* nor flags / prefixes
@@ -30,7 +31,8 @@ InitSrcs == { Assign("store", "loadonly", "plain"),      \* a stored name must n
 
 Init == /\ src \in InitSrcs
         /\ canon \in { [f \in FileSet |-> FALSE], [f \in FileSet |-> TRUE] }
-        /\ stored \in { [f \in FileSet |-> "old"], [f \in FileSet |-> IF f = "932110" THEN "norule" ELSE "old"] }
+        /\ stored \in { [f \in FileSet |-> "old"], [f \in FileSet |-> IF f = "932110" THEN "norule" ELSE "old"],
+                        [f \in FileSet |-> IF f = "932100-chain1" THEN "nochain" ELSE "old"] }
         /\ rulesFile \in {"one", "none", "two"}
         /\ tests = "raw" /\ marks = "4.0.0"
         /\ exit = 0 /\ wrote = {} /\ last = <<>> /\ pre = TreeRec /\ edits = 0
